@@ -1,7 +1,7 @@
 (* Executable entry points of the C14 model (federation filters). Arguments of every operation:
    [raw scenario (texts, for the implementation side and for replays; ignored here);
     derived scenario (numbers: parsed events, signature and Allowed tables from the real library)] *)
-From Verif Require Import Lib.Bytes Fed.Instance Fed.Oracle.
+From Verif Require Import Lib.Bytes Fed.Instance Fed.InstanceE2E Fed.Oracle.
 
 Definition ops_C14 : list (bytes * (list bytes -> bytes)) :=
   [ (bs "C14.csr", run_csr);
@@ -10,6 +10,9 @@ Definition ops_C14 : list (bytes * (list bytes -> bytes)) :=
     (bs "C14.vras", run_vras);
     (bs "C14.load", run_load);
     (bs "C14.bf", run_bf);
+    (bs "C14.csr_e2e", run_csr_e2e);
+    (bs "C14.sj_e2e", run_sj_e2e);
+    (bs "C14.chain_e2e", run_chain_e2e);
     (bs "C14.prop.csr", prop_csr);
     (bs "C14.prop.sj", prop_sj);
     (bs "C14.prop.chain", prop_chain);
